@@ -75,6 +75,37 @@ def _typed_job(job):
     return {"row": [_typed_obs(c) for c in data], "raw": repr(data)[:200]}
 
 
+def _typed_grid_job(kinds):
+    import io
+    from ..docrun import render
+    from ..repo import activate
+    activate()
+    import warnings
+    warnings.simplefilter("ignore")
+    import sharepoint2text
+    cellmap = dict(TYPED_CELL, s=["s", 9])
+    rows = []
+    n = 1
+    for row in kinds:
+        r = []
+        for k in row:
+            c = cellmap[k]
+            if k == "s":
+                c = ["s", n]
+                n += 1
+            r.append(c)
+        rows.append(r)
+    book = {"kind": "book", "sheets": [{"name": "G", "rows": rows}]}
+    try:
+        r = next(sharepoint2text.read_ods(io.BytesIO(render(book, "ods")), "g.ods"))
+        tables = [t.get_table() for t in r.iterate_tables()]
+    except Exception as e:
+        return {"exc": f"{type(e).__name__}: {e}"[:200]}
+    if len(tables) != 1:
+        return {"exc": f"tables: {tables!r}"[:200]}
+    return {"grid": [[_typed_obs(c) for c in row] for row in tables[0]], "raw": repr(tables[0])[:200]}
+
+
 def typed_values(ctx):
     """Typed spreadsheet values (numbers, booleans, dates, times, errors, formula results) keep their value."""
     from concurrent.futures import ProcessPoolExecutor
@@ -99,6 +130,17 @@ def typed_values(ctx):
             continue
         traces.append({"id": f"typed:{fmt}:{'/'.join(kinds)}", "hdr": {"fmt": fmt, "doc": {"units": [], "header": [], "footer": []}},
                        "raw": o["raw"], "ev": [{"a": "Typed", "kinds": eff, "row": o["row"]}]})
+    # header-less grids whose last column may hold only falsy values (ODS keeps every row as data)
+    grids = gen_units(ctx, "typedgrid", 1)
+    gjobs = [[[str(k) for k in row] for row in u[0]] for u in grids]
+    with ProcessPoolExecutor(16) as ex:
+        gobs = list(ex.map(_typed_grid_job, gjobs))
+    for kinds, o in zip(gjobs, gobs):
+        if "exc" in o:
+            ctx.v.violation(what=f"ods: typed grid {kinds} could not be read back: {o['exc']}", case={"kinds": kinds, "fmt": "ods"})
+            continue
+        traces.append({"id": f"typedgrid:ods:{kinds}", "hdr": {"fmt": "ods", "doc": {"units": [], "header": [], "footer": []}},
+                       "raw": o["raw"], "ev": [{"a": "TypedGrid", "kinds": kinds, "grid": o["grid"]}]})
     for t in traces:
         ctx.ev.nontrivial(t["id"])
     validate_with_findings(ctx, "DocTrace", traces, FINDING_DEV,
